@@ -807,7 +807,7 @@ def hash_str(s):
 
 # ------------------------------------------------------------------------------------------------
 
-QUICK_PER_CATEGORY = 22
+QUICK_PER_CATEGORY = 16
 THOROUGH_CAP = 30000
 
 
